@@ -194,6 +194,38 @@ def _normalise_walrus_in_comprehensions(tree):
     ast.fix_missing_locations(tree)
 
 
+def _spread_comprehension(value, n):
+    """``(f(v) for v in (p, q, ...))`` / ``[f(v) for v in [p, q, ...]]`` (also under tuple() / list()) unpacked into n targets: the tuple
+    ``(f(p), f(q), ...)``; None when the value is not of that shape (one generator over a literal of n elements, a plain-name variable, no condition)."""
+    import copy
+    v = value
+    if isinstance(v, ast.Call) and isinstance(v.func, ast.Name) and v.func.id in ("tuple", "list") and len(v.args) == 1 and not v.keywords:
+        v = v.args[0]
+    if not (isinstance(v, (ast.GeneratorExp, ast.ListComp)) and len(v.generators) == 1):
+        return None
+    g = v.generators[0]
+    if g.ifs or g.is_async or not isinstance(g.target, ast.Name) or not isinstance(g.iter, (ast.Tuple, ast.List)) or len(g.iter.elts) != n \
+            or any(isinstance(e, ast.Starred) for e in g.iter.elts):
+        return None
+    if any(isinstance(x, (ast.Lambda, ast.GeneratorExp, ast.ListComp, ast.SetComp, ast.DictComp, ast.NamedExpr)) for x in ast.walk(v.elt)):
+        return None     # nested scopes may rebind the variable
+
+    class _Sub(ast.NodeTransformer):
+        def __init__(self, name, repl):
+            self.name, self.repl = name, repl
+
+        def visit_Name(self, node):
+            if node.id == self.name and isinstance(node.ctx, ast.Load):
+                return ast.copy_location(copy.deepcopy(self.repl), node)
+            return node
+
+    elts = [_Sub(g.target.id, e).visit(copy.deepcopy(v.elt)) for e in g.iter.elts]
+    out = ast.Tuple(elts=elts, ctx=ast.Load())
+    ast.copy_location(out, value)
+    ast.fix_missing_locations(out)
+    return out
+
+
 def _normalise_blocks(tree):
     """Spelling normalisations applied to every module before analysis (positions of the original nodes are kept):
       * ``a, b = X, Y`` with plain-name targets and Y not reading a  ->  ``a = X; b = Y`` (also ``self.a, self.b = x, y`` of plain names);
@@ -211,6 +243,12 @@ def _normalise_blocks(tree):
             k = 0
             while k < len(blk):
                 st = blk[k]
+                if isinstance(st, ast.Assign) and len(st.targets) == 1 and isinstance(st.targets[0], ast.Tuple):
+                    spread = _spread_comprehension(st.value, len(st.targets[0].elts))
+                    if spread is not None:
+                        # a, b = (f(v) for v in (p, q))  ->  a, b = f(p), f(q)
+                        st.value = spread
+                        changed = True
                 if isinstance(st, ast.Assign) and len(st.targets) == 1 and isinstance(st.targets[0], ast.Tuple) and isinstance(st.value, ast.Tuple) \
                         and len(st.targets[0].elts) == len(st.value.elts) >= 2 \
                         and all(isinstance(e, ast.Name) or (isinstance(e, ast.Attribute) and isinstance(e.value, ast.Name) and e.value.id == "self") for e in st.targets[0].elts) \
